@@ -1065,25 +1065,21 @@ impl<'a> BodyGen<'a> {
             if !self.eligible(inst) {
                 continue;
             }
-            let mut pick = |c: RefClass, me: &mut Self| -> u32 {
-                let v = me.candidates(c);
-                if v.is_empty() {
-                    0
-                } else {
-                    *v.choose(me.r).unwrap()
-                }
-            };
             let mut remap = Remap {
-                func: [pick(RefClass::FuncVoid, self), pick(RefClass::FuncVoid, self)],
+                func: self.candidates(RefClass::FuncVoid),
                 ty: 0,
-                table: [pick(RefClass::TableFunc, self), pick(RefClass::TableExtern, self)],
-                memory: [pick(RefClass::Mem32, self), pick(RefClass::Mem64, self)],
-                global: [0; 7],
-                data: [pick(RefClass::Data, self), pick(RefClass::Data, self)],
-                elem: [pick(RefClass::ElemFunc, self), pick(RefClass::ElemExtern, self)],
+                table_func: self.candidates(RefClass::TableFunc),
+                table_extern: self.candidates(RefClass::TableExtern),
+                mem32: self.candidates(RefClass::Mem32),
+                mem64: self.candidates(RefClass::Mem64),
+                global: [vec![], vec![], vec![], vec![], vec![], vec![], vec![]],
+                data: self.candidates(RefClass::Data),
+                elem_func: self.candidates(RefClass::ElemFunc),
+                elem_extern: self.candidates(RefClass::ElemExtern),
+                state: self.r.gen(),
             };
             for t in TS {
-                remap.global[t.idx()] = pick(RefClass::Global(t), self);
+                remap.global[t.idx()] = self.candidates(RefClass::Global(t));
             }
             // single-memory / single-table modules without the relevant proposal must use index 0
             let Ok(ins) = remap.instruction(inst.op.clone()) else { continue };
